@@ -560,6 +560,9 @@ func newAgentWithConfig(agent *Agent, opts ...AgentOption) (*Agent, error) {
 		}
 
 		agent.removeUfragFromMux()
+		// The selected pair references candidates that are closed below: do not
+		// keep reporting it after Close.
+		agent.setSelectedPair(nil)
 		agent.deleteAllCandidates()
 		agent.startedFn()
 
